@@ -420,3 +420,74 @@ Qed.
 Lemma assign_names_refuted :
   assign_names [] ["a"; "a$2"; "a"]%string = None /\ no_dollar "a"%string = true.
 Proof. vm_compute. split; reflexivity. Qed.
+
+(* ---- the assertion never fails when the names the user wrote contain no `$` ---- *)
+Lemma dollar_split : forall a b x y,
+  no_dollar a = true -> no_dollar b = true ->
+  (a ++ "$" ++ x)%string = (b ++ "$" ++ y)%string -> a = b /\ x = y.
+Proof.
+  induction a as [|c a IH]; destruct b as [|c' b]; simpl; intros x y Ha Hb E.
+  - inversion E. auto.
+  - inversion E; subst. apply andb_true_iff in Hb. destruct Hb as [Hb _]. simpl in Hb. discriminate.
+  - inversion E; subst. apply andb_true_iff in Ha. destruct Ha as [Ha _]. simpl in Ha. discriminate.
+  - inversion E; subst. apply andb_true_iff in Ha. apply andb_true_iff in Hb.
+    destruct Ha as [_ Ha]. destruct Hb as [_ Hb]. destruct (IH b x y Ha Hb H1). subst. auto.
+Qed.
+
+Lemma app_dollar : forall b s, no_dollar (b ++ String "$"%char s) = false.
+Proof.
+  induction b as [|c b IH]; intro s; simpl.
+  - reflexivity.
+  - rewrite IH. apply andb_false_r.
+Qed.
+
+Lemma gen_name_dollar : forall b k, no_dollar (gen_name b k) = false.
+Proof. intros b k. unfold gen_name. simpl. apply app_dollar. Qed.
+
+Lemma dec_inj : forall k k', dec k = dec k' -> k = k'.
+Proof.
+  intros k k' E. unfold dec in E.
+  assert (H : Some (Nat.to_uint k) = Some (Nat.to_uint k')).
+  { rewrite <- (NilEmpty.usu (Nat.to_uint k)), <- (NilEmpty.usu (Nat.to_uint k')), E. reflexivity. }
+  inversion H as [H'].
+  rewrite <- (DecimalNat.Unsigned.of_to k), <- (DecimalNat.Unsigned.of_to k'), H'. reflexivity.
+Qed.
+
+(* every assigned name is a user name or was generated when the set was smaller *)
+Definition NamesInv (A : list string) : Prop :=
+  forall x, In x A ->
+    no_dollar x = true \/ exists b k, no_dollar b = true /\ (k < List.length A)%nat /\ x = gen_name b k.
+
+Lemma add_name_total : forall A n,
+  NamesInv A -> no_dollar n = true -> exists n' , add_name A n = Some (n', n' :: A) /\ NamesInv (n' :: A).
+Proof.
+  intros A n HI Hn. unfold add_name.
+  assert (Hup : forall n', (no_dollar n' = true \/ exists b k, no_dollar b = true /\
+                            (k < S (List.length A))%nat /\ n' = gen_name b k) -> NamesInv (n' :: A)).
+  { intros n' Hn' x [Hx|Hx].
+    - subst. simpl. exact Hn'.
+    - destruct (HI x Hx) as [H|[b [k [H1 [H2 H3]]]]]; [left; assumption|].
+      right. exists b, k. simpl. repeat split; try assumption. lia. }
+  destruct (smem n A) eqn:E1.
+  - destruct (smem (gen_name n (List.length A)) A) eqn:E2.
+    + exfalso. apply smem_spec in E2. destruct (HI _ E2) as [H|[b [k [H1 [H2 H3]]]]].
+      * rewrite gen_name_dollar in H. discriminate.
+      * unfold gen_name in H3. destruct (dollar_split _ _ _ _ Hn H1 H3) as [_ H4].
+        apply dec_inj in H4. lia.
+    + eexists. split; [reflexivity|]. apply Hup. right. exists n, (List.length A). repeat split; auto.
+  - exists n. split; [reflexivity|]. apply Hup. left. assumption.
+Qed.
+
+Theorem assign_names_total : forall ns A,
+  NamesInv A -> (forall n, In n ns -> no_dollar n = true) ->
+  exists out fin, assign_names A ns = Some (out, fin).
+Proof.
+  induction ns as [|n ns IH]; intros A HI Hns; simpl.
+  - eauto.
+  - destruct (add_name_total A n HI (Hns n (or_introl eq_refl))) as [n' [E HI']].
+    rewrite E. destruct (IH (n' :: A) HI' (fun x Hx => Hns x (or_intror Hx))) as [out [fin E2]].
+    rewrite E2. eauto.
+Qed.
+
+Lemma names_inv_user : forall A, (forall x, In x A -> no_dollar x = true) -> NamesInv A.
+Proof. intros A H x Hx. left. apply H. assumption. Qed.
